@@ -497,6 +497,30 @@ func (e *Engine) GLen() []report.Obligation {
 			lenCalls[bo.Y.(ssa.Instruction)] = true
 		}
 		if guardIf == nil {
+			// the comparison may sit in a helper both slices (or both lengths) are handed to
+			if call := e.lenGuardCall(f, sp, pp); call != nil {
+				o.OK = true
+				o.Detail = "len(scalars) != len(points) panics (inside " + load.ShortName(call.Common().StaticCallee()) + ", which is handed both) before either slice is otherwise touched"
+				for _, p := range []ssa.Value{sp, pp} {
+					for _, ref := range *p.Referrers() {
+						if ref == ssa.Instruction(call) {
+							continue
+						}
+						if c, isCall := ref.(*ssa.Call); isCall {
+							if b, isB := c.Common().Value.(*ssa.Builtin); isB && (b.Name() == "len" || b.Name() == "cap") {
+								continue
+							}
+						}
+						if !dominates(call, ref) {
+							o.OK = false
+							o.Pos = e.P.Rel(ref.Pos())
+							o.Detail = "a slice is used before (or without) the length check: " + ref.String()
+						}
+					}
+				}
+				out = append(out, o)
+				continue
+			}
 			o.Detail = "no comparison of len(scalars) with len(points) whose unequal side panics"
 			out = append(out, o)
 			continue
@@ -629,7 +653,9 @@ func (e *Engine) classify(f *ssa.Function, d CtrlDep, depth int) []string {
 	return []string{"OTHER[" + cond.String() + "]"}
 }
 
-var validityLit = regexp.MustCompile(`^PRED\[(field\.\(\*Element\)\.Equal|isOnCurve)#0 (==|!=) (0|1|true|false)\]$`)
+// a validity literal: the result of a field equality test, of SqrtRatio's wasSquare, or of an unexported
+// predicate/helper of the root package (isOnCurve, isReduced, a recoverX split off the decoder, …)
+var validityLit = regexp.MustCompile(`^PRED\[(field\.\(\*Element\)\.Equal#0|field\.\(\*Element\)\.SqrtRatio#1|\(?\*?[A-Za-z0-9_]*\)?\.?[a-z][A-Za-z0-9_]*#\d+) (==|!=) (0|1|true|false)\]$`)
 
 func isErr(t types.Type) bool {
 	return types.Identical(t, types.Universe.Lookup("error").Type())
@@ -946,4 +972,102 @@ func guardedLen(x ssa.Value, b *ssa.BasicBlock) (int64, bool) {
 		}
 	}
 	return 0, false
+}
+
+// lenGuardCall finds a call in f of an in-repo helper that receives both slices — or both of their lengths — and
+// panics when the two lengths differ.
+func (e *Engine) lenGuardCall(f *ssa.Function, sp, pp ssa.Value) *ssa.Call {
+	isLenOf := func(v ssa.Value, p ssa.Value) bool {
+		c, ok := v.(*ssa.Call)
+		if !ok {
+			return false
+		}
+		b, ok := c.Common().Value.(*ssa.Builtin)
+		return ok && b.Name() == "len" && c.Common().Args[0] == p
+	}
+	for _, b := range f.Blocks {
+		for _, in := range b.Instrs {
+			call, ok := in.(*ssa.Call)
+			if !ok {
+				continue
+			}
+			h := call.Common().StaticCallee()
+			if h == nil || !e.P.InRepo(h) || len(h.Blocks) == 0 || len(call.Common().Args) != len(h.Params) {
+				continue
+			}
+			si, pi := -1, -1
+			byLen := false
+			for k, a := range call.Common().Args {
+				switch {
+				case a == sp:
+					si = k
+				case a == pp:
+					pi = k
+				case isLenOf(a, sp):
+					si, byLen = k, true
+				case isLenOf(a, pp):
+					pi, byLen = k, true
+				}
+			}
+			if si < 0 || pi < 0 {
+				continue
+			}
+			// inside h: a comparison of the two (lengths) whose unequal side panics, on every path (entry block)
+			val := func(v ssa.Value, k int) bool {
+				if byLen {
+					return v == ssa.Value(h.Params[k])
+				}
+				return isLenOf(v, h.Params[k])
+			}
+			for _, hb := range h.Blocks {
+				ifi, ok := hb.Instrs[len(hb.Instrs)-1].(*ssa.If)
+				if !ok {
+					continue
+				}
+				bo, ok := ifi.Cond.(*ssa.BinOp)
+				if !ok || (bo.Op != token.NEQ && bo.Op != token.EQL) {
+					continue
+				}
+				if !((val(bo.X, si) && val(bo.Y, pi)) || (val(bo.X, pi) && val(bo.Y, si))) {
+					continue
+				}
+				neSide := 0
+				if bo.Op == token.EQL {
+					neSide = 1
+				}
+				ne := hb.Succs[neSide]
+				if _, isPanic := ne.Instrs[len(ne.Instrs)-1].(*ssa.Panic); !isPanic {
+					continue
+				}
+				// the comparison is reached on every path through h: its block dominates every return
+				all := true
+				for _, rb := range h.Blocks {
+					if _, isRet := rb.Instrs[len(rb.Instrs)-1].(*ssa.Return); isRet && !(hb == rb || hb.Dominates(rb)) {
+						all = false
+					}
+				}
+				if all {
+					return call
+				}
+			}
+		}
+	}
+	return nil
+}
+
+// dominates: instruction x executes before y on every path to y.
+func dominates(x, y ssa.Instruction) bool {
+	bx, by := x.Block(), y.Block()
+	if bx == by {
+		for _, in := range bx.Instrs {
+			if in == x {
+				return x != y
+			}
+			if in == y {
+				return false
+			}
+		}
+		return false
+	}
+	return bx.Dominates(by)
 }
